@@ -9,7 +9,7 @@ EXTENDS Naturals, Sequences, FiniteSets, TLC, Json
             sub_organization_of transitive.
    "family" a /verif model: ancestor_of transitive, [= related_to, inverse descendant_of; knows = known_by^-1;
             best_friend_of [= friend_of [= knows and mentor_of [= guide_of [= related_to, where no instance has a
-            friend_of / guide_of field (a skipped level of the hierarchy).
+            friend_of / guide_of field (a skipped level of the hierarchy); teaches [= knows with its OWN inverse taught_by [= known_by.
    "geo"    a /verif model: located_in transitive WITHOUT an inverse, directly_in [= located_in (declared as a descriptor
             class deriving from LocatedIn, it inherits the TransitiveProperty mixin: as declared, it is transitive as well);
             the instances r1 and r3 are instances of a subclass (City) of the class that declares the fields (Region) -
@@ -41,19 +41,22 @@ Inst == Persons \cup Companies \cup Roles
 FieldsOfInst(x) == IF Univ THEN (IF x \in Persons THEN {"works_for", "member_of"}
                                  ELSE IF x \in Companies THEN {"members", "sub"} ELSE {"head_of"})
                    ELSE IF Geo THEN {"located_in", "directly_in"}
-                   ELSE {"related_to", "ancestor_of", "descendant_of", "knows", "known_by", "best_friend_of", "mentor_of"}
+                   ELSE {"related_to", "ancestor_of", "descendant_of", "knows", "known_by", "best_friend_of", "mentor_of", "teaches", "taught_by"}
 \* super-properties that have a field on the same instance / on the role taker: <<property, distance in the hierarchy>>
 SuperSame(p) == IF Univ THEN (IF p = "works_for" THEN << <<"member_of", 1>> >> ELSE <<>>)
                 ELSE IF Geo THEN (IF p = "directly_in" THEN << <<"located_in", 1>> >> ELSE <<>>)
                 ELSE (CASE p = "ancestor_of" -> << <<"related_to", 1>> >>
                         [] p = "best_friend_of" -> << <<"knows", 2>> >>
                         [] p = "mentor_of" -> << <<"related_to", 2>> >>
+                        [] p = "teaches" -> << <<"knows", 1>> >>            \* teaches [= knows and taught_by [= known_by, and the two are
+                        [] p = "taught_by" -> << <<"known_by", 1>> >>       \* each other's inverse: a sub-property that declares its OWN inverse
                         [] OTHER -> <<>>)
 SuperTaker(p) == IF Univ /\ p = "head_of" THEN << <<"works_for", 1>>, <<"member_of", 2>> >> ELSE <<>>
 Inv(p) == IF Univ THEN (CASE p \in {"member_of", "works_for", "head_of"} -> "members" [] p = "members" -> "member_of" [] OTHER -> "none")
           ELSE IF Geo THEN "none"
           ELSE (CASE p = "ancestor_of" -> "descendant_of" [] p = "descendant_of" -> "ancestor_of"
-                  [] p \in {"knows", "best_friend_of"} -> "known_by" [] p = "known_by" -> "knows" [] OTHER -> "none")
+                  [] p \in {"knows", "best_friend_of"} -> "known_by" [] p = "known_by" -> "knows"
+                  [] p = "teaches" -> "taught_by" [] p = "taught_by" -> "teaches" [] OTHER -> "none")
 Trans(p) == IF Univ THEN p = "sub" ELSE IF Geo THEN TRUE ELSE p = "ancestor_of"
 SingleValued(p) == p \in {"works_for", "head_of"}
 \* the inverse is stored on the target, or on the target's role taker when the target itself has no such field
@@ -66,7 +69,7 @@ Assertable == IF Univ
        \cup { t \in { <<"sub", x, y>> : x \in Companies, y \in Companies } : t[2] # t[3] }
   ELSE IF Geo THEN { t \in { <<q, x, y>> : q \in {"located_in", "directly_in"}, x \in Persons, y \in Persons } : t[2] # t[3] }
   ELSE { t \in { <<q, x, y>> : q \in {"ancestor_of", "descendant_of", "related_to", "mentor_of"}, x \in Persons, y \in Persons } : t[2] # t[3] }
-       \cup { t \in { <<q, x, y>> : q \in {"knows", "known_by", "best_friend_of"}, x \in {"a", "b"}, y \in {"a", "b", "c"} } : t[2] # t[3] }
+       \cup { t \in { <<q, x, y>> : q \in {"knows", "known_by", "best_friend_of", "teaches", "taught_by"}, x \in {"a", "b"}, y \in {"a", "b", "c"} } : t[2] # t[3] }
 
 \* ---------------- layer R: closure
 Of(F, p) == { f \in F : f[1] = p }
